@@ -68,6 +68,36 @@ class Runner(c13.Runner):
         return changed, before, after, result, vals
 
 
+# functions whose documented purpose is to build a value around their arguments (or to return a function closing over them)
+STORES_ARGUMENT = {"new", "object", "map", "set", "list", "zip", "zip_map", "pairs", "enumerate", "if_null", "if_empty", "if_null_or_empty", "identity",
+                   "curry", "compose", "partial", "put", "append", "append_all", "insert_at", "bind_native", "add"}
+
+
+def nested_holds(result, args_c, depth=0, seen=None):
+    """does some container strictly inside `result` coincide with one of the argument containers"""
+    from ckl import values as V
+    seen = seen if seen is not None else set()
+    if id(result) in seen or depth > 12:
+        return False
+    seen.add(id(result))
+    if isinstance(result, V.ValueList):
+        kids = list(result.value)
+    elif isinstance(result, V.ValueSet):
+        kids = list(result.value)
+    elif isinstance(result, V.ValueMap):
+        kids = list(result.value.keys()) + list(result.value.values())
+    elif isinstance(result, V.ValueObject):
+        kids = [v for k, v in result.value.items()]
+    else:
+        return False
+    for k in kids:
+        if any(k is a for a in args_c):
+            return True
+        if nested_holds(k, args_c, depth + 1, seen):
+            return True
+    return False
+
+
 _state = {}
 
 
@@ -90,6 +120,16 @@ def _worker(job):
             from ckl import values as V
             if isinstance(result, (V.ValueList, V.ValueSet, V.ValueMap)) and any(result is v for v in vals.values()):
                 res.append((src, binds, "the result is the argument container itself (a later mutation of the result would reach the input)"))
+        elif result is not None and src[0].isalpha() and "(" in src and src.split("(")[0].split("->")[-1] not in STORES_ARGUMENT:
+            # a library function hands back a NEW container that holds one of its argument containers itself (not merely elements of
+            # it): a later mutation of that part of the result reaches the caller's argument (chunks(l, 5) returned [l])
+            from ckl import values as V
+            conts = (V.ValueList, V.ValueSet, V.ValueMap, V.ValueObject)
+            args_c = [v for v in vals.values() if isinstance(v, conts)]
+            if args_c and isinstance(result, conts) and not any(result is v for v in args_c) and not changed:
+                hit = nested_holds(result, args_c)
+                if hit:
+                    res.append((src, binds, "the result is a new container that holds the argument container itself (a later mutation of that part of the result would reach the input)"))
     return len(items), res
 
 
